@@ -232,8 +232,9 @@ def judge(ctx, st, case, impl, model, src, origin):
         viol("trim-changed-the-evaluated-configuration",
              "the final value of the trimmed package (re-parsed from the formatted output) differs from the original's: "
              "canonical forms %s vs %s (generic canonical form equal: %s)" % (canon_in, canon_out, same))
-    if idem == "0":
-        viol("trim-not-idempotent", "trim(trim(x)) != trim(x) outside the class of known finding F10")
+    if idem in ("0", "B"):
+        viol("trim-not-idempotent", "trim(trim(x)) != trim(x) outside the class of known finding F10 "
+             "(code %s: 0 = second pass changes the value or fails, B = second pass preserves the value)" % idem)
     elif idem == "F":
         st.f10 += 1
         ctx.known_finding(KNOWN_F10)
@@ -538,6 +539,6 @@ def run(ctx):
 MANIFEST = {
     "category": "proof",
     "text": "Coq theorems on top of CoreCUE, for every package (list of declarations at paths), label universe, probe atoms and depth: unifying into a node an expression its conjuncts absorb (fields exist with the same kind, structs only where there is one, every scalar constraint entailed) changes nothing (absorb_sound); hence removing declarations one after the other, each implied by what remains, leaves the evaluated configuration - data, errors, closedness, at every path - unchanged (removes_preserves / remove_implied_preserves); the acceptor run on trim's removed set is sound (accepts_sound); the reference trimmer is sound, idempotent and complete w.r.t. absorption; refuted variants: two copies imply each other but cannot both go (mutual_redundancy_unsafe), a pattern root must not win, `{}` is not implied by `_`. Tied to /repo: trim.Files on generated multi-file packages - the value after trimming (re-parsed output) equals the value before, directly on the implementation; the removed set is a pure removal accepted by the extracted model; the model's values equal cue's; trim is re-applied for idempotence.",
-    "note": "Partial: CoreCUE has no defaults, disjunctions, comprehensions, lists or references between regular fields - where trim is most delicate. For the repository's trim testdata (with every literal mutated in turn) only the direct checks run (parses/evaluates, same final value, idempotent): exploration, not proof. trim's winner selection is not modelled; the model is the safety condition on the removed set. Known finding F10: one pass is not a fixpoint on multi-file packages.",
+    "note": "Partial: CoreCUE has no defaults, disjunctions, comprehensions, lists or references between regular fields - where trim is most delicate. For the repository's trim testdata (with every literal mutated in turn) and for a fixed-seed generator with defaults, disjunctions, acyclic references, comprehensions, lists, patterns and embeddings only the direct checks run (parses/evaluates, same final value, idempotent): exploration, not proof. trim's winner selection is not modelled; the model is the safety condition on the removed set. Known findings on the pinned tree: F10 (one pass is not a fixpoint on multi-file packages), and - found by the exploration, outside CoreCUE, witnesses replayed on every run - F11 (a concrete value equal to one default is removed although another default disagrees; Coq: default_is_not_implication), F12 (self reference), F13 (comprehensions feeding each other): trim.Files changes the evaluated value there.",
     "technique": "Coq proof (absorption theorem by induction on depth over the Core/Laws.v equivalence; sequential removal by induction) + direct differential check of trim.Files + extracted-model acceptance of the removed set",
 }
